@@ -86,6 +86,9 @@ SCALAR = st.one_of(
     st.tuples(st.just('complex'), st.floats(-2, 2, allow_nan=False), st.floats(-2, 2, allow_nan=False)),
     st.tuples(st.just('np.float64'), st.floats(-3, 3, allow_nan=False)),
     st.tuples(st.just('np.complex128'), st.floats(-2, 2, allow_nan=False), st.floats(-2, 2, allow_nan=False)),
+    # scalars of another magnitude (a physical constant in SI units): 1e-15j, (5 + 5j) 1e-15, 3e12 ...
+    st.tuples(st.just('complex'), st.sampled_from([0.0, 5e-15, 3e-20]), st.sampled_from([1e-15, 5e-15, -2e-18])),
+    st.tuples(st.just('float'), st.sampled_from([1e-15, -3e-20, 3e12])),
 )
 
 
